@@ -235,6 +235,12 @@ def generate(g, h):
     g.raw('')
     g.raw('-- sshuttle/firewall.py: the helper reads command lines with readline(n)')
     fw = h.parse('sshuttle/firewall.py')
+    fwmain = h.func(fw, 'main')
+    g.strlist('FW_MAIN_STDOUT_WRITES', lambda: [_src(c.args[0]) for c in _sorted_calls(h, fwmain, 'write')
+                                                if isinstance(c.func, ast.Attribute) and _src(c.func.value) == 'stdout'])
+    g.strlist('FW_MAIN_LOOP_TESTS', lambda: [_src(n.test) for n in sorted(
+        [n for n in ast.walk(fwmain) if isinstance(n, ast.If) and 'line' in _src(n.test) and
+         ('HOST' in _src(n.test) or _src(n.test) == 'line')], key=lambda n: (n.lineno, n.col_offset))])
     g.nat('FW_READLINE_MAX', lambda: _one(
         [h.int_of(c.args[0]) for c in h.calls(h.func(fw, 'main'), lambda c: h.callname(c) == 'readline' and c.args)],
         'readline(n)'))
